@@ -226,6 +226,9 @@ def rule_locate_one(ctx):
             continue
         if tests and not known_nonempty and unguarded is None:
             unguarded = p
+        if is_ret and not tests:
+            ctx.violated('R2', fi, 'return ' + T.show(p.value)[:100], 'with a tolerance the nearest label is returned without testing that it lies within the tolerance', node=p.node)
+            continue
         if len(tests) != 1:
             ctx.undecide('R2', 'locate_one tolerance branch: expected one tolerance test per path, found %d' % len(tests))
             continue
